@@ -243,6 +243,12 @@ func ReadFromSSAWithOptions(i io.Reader, opts SSAOptions) (o *Subtitles, err err
 		}
 	}
 
+	// Scanning may have stopped because of a read error or a line that is too long
+	if err = scanner.Err(); err != nil {
+		err = fmt.Errorf("astisub: scanning failed: %w", err)
+		return
+	}
+
 	// Set metadata
 	o.Metadata = si.metadata()
 
